@@ -13,7 +13,7 @@ from . import mir
 
 VERIF = os.path.dirname(os.path.dirname(os.path.abspath(__file__)))
 REPO = os.environ.get("XSGV_REPO", "/repo")
-WORK = os.path.join(VERIF, ".work")
+WORK = os.environ.get("XSGV_WORK") or os.path.join(VERIF, ".work")
 DRIVER_DIR = os.path.join(VERIF, "driver")
 DRIVER = os.path.join(DRIVER_DIR, "target", "release", "xsgv-driver")
 CRATE = "xml_schema_generator"
